@@ -28,10 +28,13 @@ var concOps = []string{"state", "states", "projstate", "logrange", "logsub", "st
 
 type nullObserver struct{ id string }
 
-func (o *nullObserver) WriteString(line string) (int, error) { return len(line), nil }
-func (o *nullObserver) SetLines(lines []string)              {}
-func (o *nullObserver) GetTailLength() int                   { return 5 }
-func (o *nullObserver) GetUniqueID() string                  { return o.id }
+func (o *nullObserver) WriteString(line string) (int, error) {
+	runtime.Gosched() // an observer does some work (the TUI redraws, the websocket writer queues)
+	return len(line), nil
+}
+func (o *nullObserver) SetLines(lines []string) {}
+func (o *nullObserver) GetTailLength() int      { return 5 }
+func (o *nullObserver) GetUniqueID() string     { return o.id }
 
 func concProject() *types.Project {
 	mk := func(name string, policy string) types.ProcessConfig {
@@ -72,7 +75,16 @@ func runBatch(id string, ops []string, seed int64) {
 		case "job":
 			b = fakecmd.Behaviour{ExitMode: "auto", AfterTicks: 3, Code: 0, Out: []fakecmd.OutItem{{AtTick: 1, Stream: "stdout", Text: "job line"}}}
 		default:
-			b.Out = []fakecmd.OutItem{{AtTick: 0, Stream: "stdout", Text: "svc up"}, {AtTick: 2, Stream: "stdout", Text: "svc tick"}, {AtTick: 4, Stream: "stdout", Text: "svc tock"}}
+			// a chatty service: output is being delivered to the log buffer (and its observers) all the time
+			for t := 0; t < 130; t++ {
+				for k := 0; k < 12; k++ {
+					st := "stdout"
+					if k%4 == 3 {
+						st = "stderr"
+					}
+					b.Out = append(b.Out, fakecmd.OutItem{AtTick: t, Stream: st, Text: fmt.Sprintf("svc line %d.%d", t, k)})
+				}
+			}
 		}
 		return fakecmd.New(info.Proc, info.Inst, info.Attempt, nil, b)
 	}
@@ -126,10 +138,18 @@ func runBatch(id string, ops []string, seed int64) {
 		case "logrange":
 			_, _ = runner.GetProcessLog(name, r.Intn(8), r.Intn(4))
 		case "logsub":
-			o := &nullObserver{id: fmt.Sprintf("o%d", obsSeq.Add(1))}
-			if runner.GetLogsAndSubscribe(name, o) == nil {
-				time.Sleep(time.Duration(r.Intn(300)) * time.Microsecond)
-				_ = runner.UnSubscribeLogger(name, o)
+			// followers come and go (TUI selection changes, log stream connects / disconnects), mostly on the chatty process
+			if r.Intn(4) != 0 {
+				name = "svc"
+			}
+			for k := 0; k < 8; k++ {
+				o := &nullObserver{id: fmt.Sprintf("o%d", obsSeq.Add(1))}
+				if runner.GetLogsAndSubscribe(name, o) == nil {
+					if k%4 == 0 {
+						time.Sleep(time.Duration(r.Intn(300)) * time.Microsecond)
+					}
+					_ = runner.UnSubscribeLogger(name, o)
+				}
 			}
 		case "start":
 			_ = runner.StartProcess(name)
